@@ -239,6 +239,19 @@ def decide(prop, scratch, tier, seed, t0):
                 failures.append({"what": f"worker process died on stream {gname} ({b}): {err[-400:]}", "class": "crash",
                                  "ops": None, "backend": b})
                 continue
+            # internal helpers that a rewrite renamed or inlined: that level of the correspondence is skipped, not failed
+            gone = [n for n, r in enumerate(io) if r.startswith("!unavailable:")]
+            if gone:
+                names_gone = sorted({io[n].split(":", 1)[1] for n in gone})
+                note = "internal helper(s) not found under their historical names: " + ", ".join(names_gone) + " — helper-level ops skipped; the URL-level ops exercise the same code"
+                if note not in notes:
+                    notes.append(note)
+                stats["helper_level_ops_skipped"] += len(gone)
+                keepi = [n for n in range(len(full)) if n not in set(gone)]
+                full = [full[n] for n in keepi]
+                io = [io[n] for n in keepi]
+                if mo is not None:
+                    mo = [mo[n] for n in keepi]
             stats["evaluations"] += len(full)
             stats[f"ops[{gname}]"] += len(full)
             for n, o in enumerate(full):
